@@ -36,6 +36,14 @@ fn cases_presence(rng: &mut Rng, sink: &mut dyn FnMut(J) -> bool) {
     ];
     // wide objects: 1..40 hidden members / elements in one container, at several positions
     let mut special = special;
+    // many objects in one credential (records in arrays, nested chains)
+    for n_obj in [17usize, 20, 33, 40, 81, 150] {
+        let (records, chain) = many_objects(n_obj);
+        for s in [Strategy::AllLevels, Strategy::TopLevel, Strategy::NoSD] {
+            special.push((records.clone(), s.clone()));
+            special.push((chain.clone(), s));
+        }
+    }
     for w in [1usize, 2, 3, 5, 8, 9, 10, 11, 12, 16, 24, 40] {
         let wide: serde_json::Map<String, J> = (0..w).map(|i| (format!("m{i}"), json!(i))).collect();
         let wide = J::Object(wide);
@@ -150,6 +158,23 @@ fn cases_repeat(_rng: &mut Rng, sink: &mut dyn FnMut(J) -> bool) {
 
 fn cases_inert(rng: &mut Rng, sink: &mut dyn FnMut(J) -> bool) {
     let mut n = 0usize;
+    // large credentials: everything / nothing selected, with and without decoys
+    for n_obj in [20usize, 33, 40, 81, 150] {
+        let (records, chain) = many_objects(n_obj);
+        for claims in [records, chain] {
+            for s in [Strategy::AllLevels, Strategy::TopLevel, Strategy::NoSD] {
+                for sel in [J::Object(crate::pipeline::select_all(&claims)), json!({})] {
+                    n += 1;
+                    let mut c = Cfg::simple(claims.clone(), s.clone()).variant(n).to_json();
+                    c["kind"] = json!("inert");
+                    c["selection"] = sel;
+                    if !sink(c) {
+                        return;
+                    }
+                }
+            }
+        }
+    }
     for (i, t) in trees::catalog().iter().enumerate() {
         let claims = trees::with_std(t, i);
         for s in [Strategy::AllLevels, Strategy::TopLevel] {
@@ -166,6 +191,19 @@ fn cases_inert(rng: &mut Rng, sink: &mut dyn FnMut(J) -> bool) {
             }
         }
     }
+}
+
+/// Credentials with about `n` objects: records in an array (each with a nested object), and a
+/// chain of nested objects with side branches.
+fn many_objects(n: usize) -> (J, J) {
+    let records: Vec<J> = (0..n / 2).map(|i| json!({"id": i, "d": {"v": i}})).collect();
+    let records = json!({"iss": "i", "exp": FAR_EXP, "records": records});
+    let mut chain = json!({"end": true});
+    for i in 0..n / 2 {
+        chain = json!({"n": chain, "side": {"i": i}});
+    }
+    let chain = json!({"iss": "i", "exp": FAR_EXP, "c": chain});
+    (records, chain)
 }
 
 /// Walk every object of an issued structure (payload and disclosed values); for each return
